@@ -102,9 +102,9 @@ func vrtHarness_C05_ageing() {
 		vrtImplies(vrtAnd(r.Rcode == dns.RcodeSuccess, len(r.Answer) == 0), life <= 300)))
 
 	// let eSec seconds + eFrac nanoseconds pass
-	// the fraction lies on a 512-ns grid, at least 1 ms away from a whole second (native clock drift;
+	// the fraction lies on a 512-ns grid, at least 50 ms away from a whole second (native clock drift;
 	// the odd grid offset lets the solver refute 'exactly on a second boundary' from the low bits of 10^9 = 2^9*1953125)
-	eSec, eFrac := vrtBelow(1<<31), (1953+vrtBelow(1949218))*512+256
+	eSec, eFrac := vrtBelow(1<<31), (97656+vrtBelow(1757813))*512+256
 	e := time.Duration(eSec*1000000000 + eFrac)
 	it, cacheExp, ok := backend.Get("k")
 	vrtAssert("fresh entry is visible", vrtAnd(ok, it != nil))
